@@ -116,6 +116,10 @@ var (
 	install  sync.Once
 )
 
+// The hook variables are written once, at package initialisation, before any
+// goroutine of the system under test can exist.
+func init() { installHooks() }
+
 func installHooks() {
 	install.Do(func() {
 		verifhook.YieldFn = func(site string) {
@@ -293,17 +297,17 @@ func (s *Sim) exitTask(t *Task) {
 }
 
 func (s *Sim) yield(site string) {
+	if s.aborting.Load() {
+		if site == "vm.eval" && s.lookup() != nil {
+			panic(AbortSentinel)
+		}
+		return
+	}
 	if s.passthrough.Load() {
 		return
 	}
 	t := s.lookup()
 	if t == nil {
-		return
-	}
-	if s.aborting.Load() {
-		if site == "vm.eval" {
-			panic(AbortSentinel)
-		}
 		return
 	}
 	s.mu.Lock()
@@ -316,6 +320,9 @@ func (s *Sim) yield(site string) {
 		panic(AbortSentinel)
 	}
 }
+
+// Parallel reports whether the run is inside a parallel window.
+func (s *Sim) Parallel() bool { return s.passthrough.Load() }
 
 // Yield lets harness code running inside a task (host builtins) mark its own
 // scheduling points.
@@ -521,6 +528,25 @@ func (s *Sim) nextEventStep() (int, bool) {
 		}
 	}
 	return best, ok
+}
+
+// FreeRun opens a parallel window: hooks turn into pass-throughs and every
+// parked task is released at once, so from here on the tasks run truly in
+// parallel (used with the race detector). Run() keeps waiting for them.
+func (s *Sim) FreeRun() {
+	s.passthrough.Store(true)
+	s.mu.Lock()
+	var parked []*Task
+	for _, t := range s.tasks {
+		if t.state == Parked {
+			t.state = Running
+			parked = append(parked, t)
+		}
+	}
+	s.mu.Unlock()
+	for _, t := range parked {
+		t.resume <- struct{}{}
+	}
 }
 
 // Shutdown tears the run down: hooks go to abort mode, every parked task is
